@@ -7,9 +7,8 @@
    ensures by restricting values, fraction and margin to small dyadic rationals.
    Timestamps: AsTime = time.Unix(seconds, nanos) with its normalisation of nanos and the int64
    offset to the internal epoch; Before; Sub with its saturation.  Durations: AsDuration with its
-   saturation; int64 subtraction wraps (wrap64).  DurationValueWithinP: float32(xd)/float32(yd) as
-   the exact ratio (guard: durations exactly representable in float32 and a ratio that does not round
-   across p).  No proofs here. *)
+   saturation; int64 subtraction wraps (wrap64).  DurationValueWithinP: float32(xd)/float32(yd) with both roundings (to nearest even at 24 bits)
+   computed in integers.  No proofs here. *)
 From Coq Require Import QArith Qabs Qminmax.
 From SC Require Import Base.Prelude Cmp.Cmp.
 Open Scope Z_scope.
@@ -160,9 +159,47 @@ Definition duration_within_gen (wrap_v0 : bool) (d : Z) : vcmp := fun x y =>
 Definition duration_within := duration_within_gen false.
 Definition duration_within_v0 := duration_within_gen true.
 
-(* DurationValueWithinP: |float32(xd) / float32(yd)| < p.  A zero divisor gives +-Inf or NaN,
-   never below p. *)
+(* ---------- float32 arithmetic of DurationValueWithinP, in integers ---------- *)
+(* float32(z) for an int64 z: round to nearest even at 24 significant bits (never overflows, never
+   subnormal): the value as an integer *)
+Definition f32_of_Z (z : Z) : Z :=
+  let a := Z.abs z in
+  if a <? 16777216 then z
+  else
+    let e := Z.log2 a - 23 in
+    let q := Z.shiftr a e in
+    let r := a - Z.shiftl q e in
+    let half := Z.shiftl 1 (e - 1) in
+    let q' := if (half <? r) || ((r =? half) && Z.odd q) then q + 1 else q in
+    Z.sgn z * Z.shiftl q' e.
+(* the float32 quotient n / d of two positive integers (both float32 values; the quotient lies
+   between 1e-20 and 1e19, so it is a normal float32): (m, e) with value m * 2^e, m < 2^24 rounded to
+   nearest even *)
+Definition f32_quot (n d : Z) : Z * Z :=
+  let e0 := Z.log2 n - Z.log2 d - 24 in
+  let scaled (e : Z) := if 0 <=? e then (n, Z.shiftl d e) else (Z.shiftl n (- e), d) in
+  let e := if 16777216 <=? fst (scaled e0) / snd (scaled e0) then e0 + 1 else e0 in
+  let '(num, den) := scaled e in
+  let m := num / den in
+  let r := num - m * den in
+  let m' := if (den <? 2 * r) || ((2 * r =? den) && Z.odd m) then m + 1 else m in
+  (m', e).
+(* m * 2^e < p *)
+Definition scaled_lt (me : Z * Z) (p : Q) : bool :=
+  let '(m, e) := me in
+  let v := if 0 <=? e then inject_Z (Z.shiftl m e) else Qmake m (Z.to_pos (Z.shiftl 1 (- e))) in
+  negb (Qle_bool p v).
+
+(* DurationValueWithinP: pd := float32(xd) / float32(yd); if pd < 0 { pd = -pd }; pd < p.  A zero
+   divisor gives +-Inf or NaN, never below p; p is a float32 (the guard: exactly representable). *)
 Definition dur_ratio_lt (p : Q) (xd yd : Z) : bool :=
+  let x := Z.abs (f32_of_Z xd) in
+  let y := Z.abs (f32_of_Z yd) in
+  if y =? 0 then false
+  else if x =? 0 then negb (Qle_bool p 0)
+  else scaled_lt (f32_quot x y) p.
+(* the exact ratio, which the float32 computation approximates *)
+Definition dur_ratio_exact_lt (p : Q) (xd yd : Z) : bool :=
   if yd =? 0 then false
   else negb (Qle_bool p (Qabs (inject_Z xd / inject_Z yd))).
 Definition duration_within_p (p : Q) : vcmp := fun x y =>
